@@ -29,6 +29,11 @@ CLAIMED = {
   note="Trusted: gowp, go/ssa, solvers; math.Floor/Ceil/Copysign/Pow per Go documentation (assumed contracts listed in the evidence); argument arrays assumed not written during a native call.",
   technique="contract-based deductive verification: ES5 15.8 / B.2 as SMT FP/BV spec functions, VCs over go/ssa discharged by z3/cvc5",
   ref="6 C13"),
+ "C18": dict(
+  text="Proof over every exceptional edge (each call site is a potential panic point) that [[Call]] leaves the scope stack of the runtime exactly as it found it - on return, JavaScript exception, stack-limit RangeError, or a panic of a host function / interrupt handler - with the deferred leaveScope modelled on the paths that registered it; that enterScope pushes exactly one frame or throws RangeError with the stack untouched and admits exactly depths 0..limit-1; that enterFunctionScope and leaveScope push/pop one frame and never relink existing frames; and that every statement and expression evaluation polls the interrupt channel when one is installed. Prompt delivery by the Go scheduler and loops inside built-ins are not covered.",
+  note="Trusted: gowp, go/ssa, solvers. Assumed inductive hypothesis (listed in evidence): code reached through function values (native/host functions, interrupt handlers) and cmplCallNodeFunction preserve runtime.scope and scope.outer. One known finding: try/catch catches host panics (pinned by an existing test).",
+  technique="contract-based deductive verification: unwind_ensures/preserves obligations on exceptional edges with inlined defers, ghost events for polling; VCs over go/ssa discharged by z3/cvc5",
+  ref="6 C18"),
 }
 
 NA = {
